@@ -19,7 +19,7 @@ BUILD_LIMIT = 5.0
 MAXTASKS = 8
 
 MODSRC = '''
-import dataclasses, typing, collections.abc, datetime
+import dataclasses, typing, collections.abc, datetime, types
 T = typing.TypeVar("T")
 TB = typing.TypeVar("TB", bound=int)
 TC = typing.TypeVar("TC", int, str)
@@ -50,6 +50,17 @@ class NoHintsDefault:
         return 1
     def __repr__(self):
         return f"NoHintsDefault({self.parent!r}, {self.retries!r})"
+class NoHintsExc(Exception):  # hint-less classes on C bases without a text signature
+    pass
+class NoHintsNS(types.SimpleNamespace):
+    pass
+class Outer:
+    @dataclasses.dataclass
+    class NDC:  # a class nested in a class; the module also has a top-level class of the same name
+        a: int = 0
+@dataclasses.dataclass
+class NDC:
+    a: str = ""
 type RecTree = list[RecTree] | int
 type RecDict = dict[str, RecDict | int]
 AliasT = typing.TypeAliasType("AliasT", T)
@@ -78,6 +89,9 @@ ATOMS = [
     # a type variable hidden behind a wrapper
     ("RecTree", "RecTree", "rec"), ("RecDict", "RecDict", "rec"), ("None", "None", "none"), ("NoHintsDefault", "NoHintsDefault", "nohints"),
     ("Final_T", "typing.Final[T]", "pass"), ("AliasT", "AliasT", "pass"), ("NewT", "NewT", "pass"), ("NewTB", "NewTB", "conv"), ("GenDC", "GenDC", "gendc"),
+    # leaves (arguments are not member types) behind a qualifier
+    ("Final_Callable1", "typing.Final[typing.Callable[[int], str]]", "pass"), ("Final_type_int", "typing.Final[type[int]]", "pass"),
+    ("NoHintsExc", "NoHintsExc", "build"), ("NoHintsNS", "NoHintsNS", "build"), ("NestedDC", "Outer.NDC", "conv"),
 ]
 E8 = ["int", "DC", "Any", "object", "list", "T", "Callable1", "Box_int"]
 UNARY = ("list", "set", "vtuple", "opt", "dict", "dvt")
@@ -116,8 +130,10 @@ def probe(t, ns, S):
             return DT.isoformat(), DT, DT, DT.isoformat()
         if name == "DC":
             return {"a": "1", "b": 2}, ns["DC"](1, "2"), ns["DC"](1, "2"), {"a": 1, "b": "2"}
+        if name == "NestedDC":
+            return {"a": "1"}, ns["Outer"].NDC(1), ns["Outer"].NDC(1), {"a": 1}
         if kind == "pass":
-            s = {"Callable": len, "Callable1": len, "CallableE": len, "type_int": int, "Type_DC": ns["DC"]}.get(name, S)
+            s = {"Callable": len, "Callable1": len, "CallableE": len, "type_int": int, "Type_DC": ns["DC"], "Final_Callable1": len, "Final_type_int": int}.get(name, S)
             return s, s, s, s
         if kind == "bare":
             if name in ("list", "List", "Sequence"):
@@ -186,6 +202,8 @@ def terms(tier):
         out += [("un", f, a) for f in UNARY for a in d1]
         out += [("bin", f, a, b) for f in BINARY for a in d1[::3] for b in atoms[::2]]
         out += [("bin", f, b, a) for f in BINARY for a in d1[::3] for b in atoms[::2]]
+        # the diagonal: one atom at two depths of one annotation (the shape that makes the graph revisit a type), both orders
+        out += [("bin", "ftuple", ("un", f, a), a) for f in UNARY for a in atoms] + [("bin", "ftuple", a, ("un", f, a)) for f in UNARY for a in atoms]
     else:
         lv1 = atoms + d1
         out += [("un", f, a) for f in UNARY for a in d1]
@@ -208,7 +226,8 @@ def meta(tier):
     return {
         "rule": f"every annotation of the extended grammar over {len(ATOMS)} atoms (K4 + Any, object, bare builtin and typing containers, TypeVars free/bound/constrained, Callable forms, "
         "type[X], user generic bare/parameterised, hint-less class) and formers list/set/tuple[X,...]/Optional/dict[str,X]/two variadic tuples/tuple[X,Y]/Union[X,Y]: "
-        + ("depth <= 1 complete plus depth 2 with at least one atom argument" if tier == "quick" else "ALL of depth <= 2 plus depth-3 spines over 8 atoms")
+        + ("depth <= 1 complete; depth 2: every unary former over every depth-1 term, the binary formers over (every 3rd depth-1 term x every 2nd atom) in both argument orders, "
+           "and the complete diagonal tuple[F[a], a] / tuple[a, F[a]] (one atom at two depths) for every atom a and unary former F" if tier == "quick" else "ALL of depth <= 2 plus depth-3 spines over 8 atoms")
         + "; (1) marshaller, unmarshaller, codec construct within the wall limit; (2) an opaque sentinel at every unresolvable position comes back by identity from both directions while "
         "resolvable siblings are converted; (3) building again, and after clearing caches, agrees on the probe; non-trivial = the pass-through clause was judged; distinct by (annotation, outcome)",
         "bounds": {"terms": len(terms(tier)), "atoms": [a[0] for a in ATOMS]},
